@@ -219,7 +219,7 @@ def run(ctx):
     ctx.extra_targets = ["Amp/Chain.vo", "Amp/CascadeTie.vo"]
     rnd = random.Random(ctx.seed * 1000003 + 1)
     ctx.rule = ("spin-0 three-chain configs: closed-form layers at p and at Lambda p for Lambda in {rotation, boost(|v|<=0.9), rot+boost, inversion}; spinful: spin-1/2 weak decay, "
-                "vector->vector+2 scalars, 4-body vector->4 scalars via (VV) and (A->V) cascades, identical spin-0 pair: densities at p vs Lambda p, one generator at a time; "
+                "vector->vector+2 scalars, vector->3 scalars through all three pairings (spins 1,2,1), 4-body vector->4 scalars via (VV) and (A->V) cascades, identical spin-0 pair: densities at p vs Lambda p, one generator at a time; "
                 "distinct = distinct (config, transform, event)")
     common.theorem_stage(ctx)
     quick = ctx.tier == "quick"
@@ -250,6 +250,13 @@ def run(ctx):
         p4 = ampkit.gen_events(M0, mf, nev, rnd.randrange(10 ** 6))
         metamorphic(ctx, rnd, tag, cfg, p4, cases)
         ctx.sample({"config_tag": tag, "decay": cfg["decay"]}, cap=8)
+    # vector parent -> three pseudoscalars through all three pairings (spins 1, 2, 1): the scope of C01_multi_topology_rotation_invariant
+    mf = {"B": 0.14, "C": 0.14, "D": 0.49}; M0 = 3.1
+    res = {"R_BC": {"pair": "R_BC", "J": 1, "P": -1, "mass": 0.77, "width": 0.15}, "R_BD": {"pair": "R_BD", "J": 2, "P": 1, "mass": 1.43, "width": 0.1},
+           "R_CD": {"pair": "R_CD", "J": 1, "P": -1, "mass": 0.89, "width": 0.05}}
+    cfg = ampkit.three_body_config(M0, mf, res, top=(1, -1))
+    p4 = ampkit.gen_events(M0, mf, nev, rnd.randrange(10 ** 6))
+    metamorphic(ctx, rnd, "vec3s", cfg, p4, cases)
     cfg, M0, mf, tree = four_body(rnd)
     p4 = ampkit.gen_tree_events(tree, mf, M0, nev, rnd.randrange(10 ** 6))
     metamorphic(ctx, rnd, "fourbody", cfg, p4, cases)
